@@ -6,6 +6,7 @@ import (
 	"fmt"
 	"math"
 	"sort"
+	"strings"
 
 	"pgregory.net/rapid"
 
@@ -27,6 +28,7 @@ type Profile struct {
 	VoidRoot  bool     // the document may be void
 	ArrayBias int      // 0..100: extra chance that a container is an array
 	ScalarArr bool     // arrays hold scalars only
+	Big       int      // 0..100: chance (per document) of one very long string or array somewhere
 }
 
 func (p Profile) norm() Profile {
@@ -43,17 +45,28 @@ func (p Profile) norm() Profile {
 }
 
 var plainKeys = []string{"a", "b", "c", "id", "k"}
-var nastyKeys = []string{"1e2", "1.5", "2.0", "0e0", ".5", "0x10", "inf", "NaN", "1_0", "", "a/b", "m~n", "\u00e9", "1", "01", "-", "+1", "~0", "a b", "/", "~", "0", "-1", "12345678901234567890", "\"q\"", " "}
+
+// caseKeys differ from plain keys only in letter case.
+var caseKeys = []string{"A", "B", "ID", "Id", "K"}
+var nastyKeys = []string{"~1", "a~1b", "x~01", "~01", "1e2", "1.5", "2.0", "0e0", ".5", "0x10", "inf", "NaN", "1_0", "", "a/b", "m~n", "\u00e9", "1", "01", "-", "+1", "~0", "a b", "/", "~", "0", "-1", "12345678901234567890", "\"q\"", " "}
 var plainStrings = []string{"", "a", "b", "1", "true"}
 
 // PayloadStrings are strings that stress text formats.
 var PayloadStrings = []string{
 	"\x00", "\x1f", "\n", "\r\n", "\t", "\"", "\\", "\\\"", "<>&", "</script>", "\u2028", "\u2029",
 	"\U0001F600", "\u00e9", "\u65e5\u672c", "\u007f", "\u0080", "\ufeff", " lead", "trail ", "- x", "a: b", "#c", "@", "[", "]", "^", "+", "-", " ",
-	"null", "[]", "{}", "0", "1e21", "~", "yes",
+	"null", "[]", "{}", "0", "1e21", "~", "yes", "100%", "%d items", "%s", "%!v(MISSING)", "%%", "a%b",
 }
 
-var floatPool = []float64{0.5, -0.5, 1e21, 1e-7, math.Copysign(0, -1), 1.5, 2.25, 9007199254740993, 1e300, -1, 0.1, 0.30000000000000004, 100}
+// LongStrings share their first 60 bytes and differ only near the end.
+var LongStrings = []string{
+	"https://example.com/a/very/long/path/that/goes/on/and/on/and/on/0001",
+	"https://example.com/a/very/long/path/that/goes/on/and/on/and/on/0002",
+	"https://example.com/a/very/long/path/that/goes/on/and/on/and/on/0001?x",
+	"https://example.com/a/very/long/path/that/goes/on/and/on/and/on/",
+}
+
+var floatPool = []float64{5e-324, 1e-310, 2.5e-320, -5e-324, 0.3, 1234567890123456, 1234567890123457, 9007199254740990, 9007199254740991, 1.0000000000000002, 0.5, -0.5, 1e21, 1e-7, math.Copysign(0, -1), 1.5, 2.25, 9007199254740993, 1e300, -1, 0.1, 0.30000000000000004, 100}
 
 // Int draws an integer uniformly from [lo, hi]. rapid's own integer
 // generators favour small magnitudes, which would skew every weighted
@@ -109,6 +122,9 @@ func Scalar(t *rapid.T, p Profile) V {
 		}
 		return float64(Int(t, "int", 0, 3))
 	default:
+		if chance(t, "longString", 12) {
+			return pick(t, "longStr", LongStrings)
+		}
 		if p.Payload {
 			return pick(t, "payload", PayloadStrings)
 		}
@@ -116,7 +132,40 @@ func Scalar(t *rapid.T, p Profile) V {
 	}
 }
 
+// NearScalar returns a value that differs from v as little as possible:
+// the adjacent float64, or the same string with a changed tail.
+func NearScalar(t *rapid.T, v V) (V, bool) {
+	switch x := v.(type) {
+	case float64:
+		up := chance(t, "up", 50)
+		y := math.Nextafter(x, math.Inf(-1))
+		if up {
+			y = math.Nextafter(x, math.Inf(1))
+		}
+		if math.IsInf(y, 0) || math.IsNaN(y) {
+			y = math.Nextafter(x, 0)
+		}
+		return y, true
+	case string:
+		if len(x) == 0 {
+			return nil, false
+		}
+		switch Int(t, "tail", 0, 2) {
+		case 0:
+			return x + "~", true
+		case 1:
+			return x[:len(x)-1], true
+		default:
+			return x[:len(x)-1] + "#", true
+		}
+	}
+	return nil, false
+}
+
 func key(t *rapid.T, p Profile) string {
+	if chance(t, "caseKey", 6) {
+		return pick(t, "ckey", caseKeys)
+	}
 	if p.NastyKeys && chance(t, "nastyKey", 30) {
 		return pick(t, "nkey", nastyKeys)
 	}
@@ -190,10 +239,61 @@ func Doc(t *rapid.T, p Profile) V {
 	} else {
 		v = Scalar(t, p)
 	}
+	if p.Big > 0 && chance(t, "big", p.Big) {
+		v = injectBig(t, v)
+	}
 	if len(p.Keyed) > 0 {
 		v = Keyify(v, p.Keyed)
 	}
 	return v
+}
+
+// BigValue draws a value whose one-line JSON rendering is long: a string of
+// 5 KB or 70 KB, or an array of 80..3000 small numbers.
+func BigValue(t *rapid.T) V {
+	switch Int(t, "bigKind", 0, 3) {
+	case 0:
+		return strings.Repeat("x", 5000) + fmt.Sprint(Int(t, "bigTag", 0, 9))
+	case 1:
+		return strings.Repeat("long line ", 7000) + fmt.Sprint(Int(t, "bigTag", 0, 9))
+	case 2:
+		n := Int(t, "bigLen", 65, 200)
+		mod := Int(t, "bigMod", 3, 90)
+		out := make([]V, n)
+		for i := range out {
+			out[i] = float64(i % mod)
+		}
+		return out
+	case 3:
+		n := Int(t, "bigLen", 80, 130)
+		out := make([]V, n)
+		for i := range out {
+			out[i] = float64(i)
+		}
+		return out
+	default:
+		n := Int(t, "hugeLen", 1000, 3000)
+		out := make([]V, n)
+		for i := range out {
+			out[i] = float64(i % 7)
+		}
+		return out
+	}
+}
+
+func injectBig(t *rapid.T, v V) V {
+	big := BigValue(t)
+	switch x := v.(type) {
+	case []V:
+		i := Int(t, "bigAt", 0, len(x))
+		out := append([]V{}, x[:i]...)
+		out = append(out, big)
+		return append(out, x[i:]...)
+	case map[string]V:
+		x[Pick(t, "bigKey", []string{"big", "a", "k"})] = big
+		return x
+	}
+	return []V{v, big}
 }
 
 // Keyify repairs a document so that, in every array, every object member
@@ -280,6 +380,11 @@ func editAt(t *rapid.T, v V, p Profile, depth int) V {
 		return editObject(t, x, p, depth)
 	default:
 		// scalar: replace, sometimes by a container (type change)
+		if chance(t, "near", 15) {
+			if nv, ok := NearScalar(t, v); ok {
+				return nv
+			}
+		}
 		if chance(t, "typeChange", 25) {
 			return Value(t, p, depth)
 		}
@@ -666,6 +771,9 @@ func DeepPair(t *rapid.T, a, b V, p Profile) (V, V) {
 		return a, b
 	}
 	k := Int(t, "deepLevels", 1, 6)
+	if Chance(t, "veryDeep", 6) {
+		k = Int(t, "veryDeepLevels", 28, 45)
+	}
 	for i := 0; i < k; i++ {
 		key := Pick(t, "deepKey", plainKeys)
 		oa := map[string]V{key: a}
